@@ -12,7 +12,7 @@ PAIRS20 = [(e, x) for e in (0, 1, 2, 3, 5, 11, 12, 13) for x in (0, 1, 2, 5, 6, 
 def jobs(pid, which, tier, defines=(), pairs=None, twice=0):
     J = []
     for (e, x) in pairs:
-        heavy = (e in (3, 10, 12, 18) and x in (3, 8, 10, 12, 13, 18)) or (e in (3,) and x in (2, 6, 7))
+        heavy = (e in (3, 10, 12, 18) and x in (3, 8, 10, 12, 13, 18)) or (e in (3,) and x in (2, 6, 7)) or x == 14 or e == 14
         J.append(Job('%s%s.e%d.x%d' % (pid, '.simple' if 'ALLOC_SIMPLE' in defines else '', e, x), 'harness/c_merge.cpp', '@h_merge', [which, e, x, twice],
                      defines=tuple(defines) + ('__SANITIZE_ADDRESS__',), keep=stubs_number.KEEP, stubs='stubs_number', nproc=8 if heavy else 2, timeout=3400, max_paths=2000000,
                      max_steps=30000000, bound='skeleton #%d x skeleton #%d (harness/c_merge.cpp kShape), all slot values' % (e, x)))
